@@ -265,12 +265,6 @@ def specs(r):
                 if vals and all(d <= now for (_t, d) in vals) and k not in batch:
                     qs.append(("spec eq 0 1", {"what": "a job that was due during the whole exec_jobs call was not chosen (batch not taken from one state of the job)",
                                                "key": k, "exec": rec.get("exec_id"), "dues": sorted({d for _t, d in vals}), "now": now}))
-    # "rescheduling ... each job it ran": every run of an unlimited job is followed by exactly one rescheduling, whoever ran it
-    if tl is not None and not out.get("deadlock"):
-        for k, v in (out.get("jobs") or {}).items():
-            if v[3] == 0 and (out.get("stops") or {}).get(k) is None and not any(rec["op"] == "exec" and rec["args"].get("force") for rec in out["records"]):
-                qs.append((f"spec eq {(out.get('reschedulings') or {}).get(k, 0)} {v[0]}",
-                           {"what": "every execution moves the due time exactly once (reschedulings = executions)", "key": k}))
     qs += final_due_specs(scn, out)
     q = lin_query(scn, out)
     if q is not None:
